@@ -1097,7 +1097,7 @@ class Canon(object):
                 continue
             # N12b  if x == c1 or x == c2 or ...: <block that reads TABLE[x] and ends in raise / return>   ->   one `if x == ci:` per constant
             #       (the table lookup is then decided by N46)
-            if isinstance(s, ast.If) and not s.orelse and isinstance(s.test, ast.BoolOp) and isinstance(s.test.op, ast.Or) and terminates(s.body) \
+            if isinstance(s, ast.If) and not s.orelse and isinstance(s.test, ast.BoolOp) and isinstance(s.test.op, ast.Or) \
                     and len(s.test.values) <= 8 and _size(s.body) <= 40:
                 vs = s.test.values
                 names = set()
@@ -1114,8 +1114,15 @@ class Canon(object):
                 if len(names) == 1 and None not in names:
                     x = list(names)[0]
                     if any(isinstance(n, ast.Subscript) and isinstance(n.slice, ast.Name) and n.slice.id == x and isinstance(n.value, ast.Name) for b in s.body for n in ast.walk(b)):
-                        for v in vs:
-                            out.append(ast.copy_location(ast.If(test=v, body=[copy.deepcopy(b) for b in s.body], orelse=[]), s))
+                        if terminates(s.body):
+                            for v in vs:
+                                out.append(ast.copy_location(ast.If(test=v, body=[copy.deepcopy(b) for b in s.body], orelse=[]), s))
+                        else:
+                            # an if / elif chain: exactly one copy of the block runs, as before
+                            chain = []
+                            for v in reversed(vs):
+                                chain = [ast.copy_location(ast.If(test=v, body=[copy.deepcopy(b) for b in s.body], orelse=chain), s)]
+                            out.extend(chain)
                         self.hit('N12')
                         continue
             out.append(s)
